@@ -320,6 +320,7 @@ func checkC02(c *Ctx) {
 	// R02.8 ---------------------------------------------------------------
 	ruleNoNewNameExemption(c)
 	checkIdentVisitorExits(c, "R02.8")
+	ruleMethodSignatureUnnamedOnly(c)
 }
 
 // checkIdentVisitorExits: transformGoFile's identifier callback may leave an
